@@ -335,13 +335,13 @@ fn mutate_value(v: &mut Value, rng: &mut StdRng, pad: usize) -> &'static str {
         4 => {
             // retarget an edge endpoint (possibly to an undeclared key)
             let edges = arr[1].as_array_mut().unwrap();
-            if let Some(i) = pick(rng, edges) { let w = rng.gen_range(0..2); edges[i][w] = json!(rng.gen_range(1..=pad)); }
+            if let Some(i) = pick(rng, edges) { let w = rng.gen_range(0..2); if let Some(x) = edges[i].get_mut(w) { *x = json!(rng.gen_range(1..=pad)); } }
             "retarget-edge"
         }
         5 => {
             // re-key a node (possibly producing a repeated key and orphaned edges)
             let nodes = arr[0].as_array_mut().unwrap();
-            if let Some(i) = pick(rng, nodes) { nodes[i][0] = json!(rng.gen_range(1..=pad)); }
+            if let Some(i) = pick(rng, nodes) { if let Some(x) = nodes[i].get_mut(0) { *x = json!(rng.gen_range(1..=pad)); } }
             "rekey-node"
         }
         6 => {
@@ -350,12 +350,14 @@ fn mutate_value(v: &mut Value, rng: &mut StdRng, pad: usize) -> &'static str {
             let r = repl[rng.gen_range(0..repl.len())].clone();
             let which = rng.gen_range(0..2);
             let inner = arr[which].as_array_mut().unwrap();
-            if let Some(i) = pick(rng, inner) {
-                let t = inner[i].as_array_mut().unwrap();
-                let j = rng.gen_range(0..t.len());
-                t[j] = r;
-            } else {
-                arr[which] = r;
+            match pick(rng, inner) {
+                Some(i) if inner[i].as_array().map(|t| !t.is_empty()).unwrap_or(false) => {
+                    let t = inner[i].as_array_mut().unwrap();
+                    let j = rng.gen_range(0..t.len());
+                    t[j] = r;
+                }
+                Some(i) => inner[i] = r,
+                None => arr[which] = r,
             }
             "retype"
         }
@@ -372,8 +374,9 @@ fn mutate_value(v: &mut Value, rng: &mut StdRng, pad: usize) -> &'static str {
             let which = rng.gen_range(0..2);
             let inner = arr[which].as_array_mut().unwrap();
             if let Some(i) = pick(rng, inner) {
-                let t = inner[i].as_array_mut().unwrap();
-                if rng.gen_bool(0.5) { t.pop(); } else { t.push(json!(1)); }
+                if let Some(t) = inner[i].as_array_mut() {
+                    if rng.gen_bool(0.5) { t.pop(); } else { t.push(json!(1)); }
+                }
             }
             "tuple-arity"
         }
